@@ -45,7 +45,7 @@ def run(ctx):
     for b, sp, what, r in bad:
         ctx.bad("inv", "buffer-cursor-invariant:%s:%s:unproven" % (b.id.split("::")[-1], what), ctx.where(b, sp),
                 "the cursor invariant offset <= len(buffer) must hold after this %s; the bounds reasoning of every decoder built on the cursor depends on it" % what)
-    ctx.floor("inv", "cursor invariant obligations", len(proven), 5 if ctx.config == "default" else 3)
+    ctx.floor("inv", "cursor invariant obligations", len(proven), 3)
     # ---- local side conditions named by reviewed entries
     side_rules(ctx, cg)
     # ---- side conditions of the reviewed entries (evaluated lazily, once)
